@@ -481,28 +481,29 @@ fn build_labelled<'a>(d: &'a PrettifiableDataset) -> BTreeSet<&'a SimpleTerm<'a>
         }
     }
     // detect blank node cycles
+    // (every non-bad blank node has at most one predecessor, so we follow predecessor chains;
+    // `visited` marks nodes whose chain has been fully explored in a previous iteration,
+    // `on_path` the nodes of the chain being explored: meeting one of them again means
+    // that we found a cycle, which is broken by labelling that node)
     let keys: Vec<_> = profiles.keys().copied().collect();
+    let mut on_path = BTreeSet::new();
     for key in keys {
-        let profile = profiles.get_mut(&key).unwrap();
-        if profile.bad || profile.visited {
-            continue;
-        }
-        profile.visited = true;
-        let mut current = profile.predecessor;
+        let mut current = Some(key);
         while let Some(t) = current {
-            if let Some(p) = profiles.get_mut(&t) {
-                if t == key {
-                    p.bad = true;
-                    break;
-                } else if p.bad || p.visited {
-                    break;
-                } else {
-                    p.visited = true;
-                    current = p.predecessor;
-                }
-            } else {
+            let Some(p) = profiles.get_mut(&t) else {
+                break;
+            };
+            if p.bad || p.visited {
                 break;
             }
+            if !on_path.insert(t) {
+                p.bad = true;
+                break;
+            }
+            current = p.predecessor;
+        }
+        for t in std::mem::take(&mut on_path) {
+            profiles.get_mut(&t).unwrap().visited = true;
         }
     }
     profiles
